@@ -38,10 +38,12 @@ var c07Override = map[string]int{
 	"PasswordGrantAccessTokenLifespan": 180, "PasswordGrantRefreshTokenLifespan": 190, "RefreshTokenGrantIDTokenLifespan": 200, "RefreshTokenGrantAccessTokenLifespan": 210, "RefreshTokenGrantRefreshTokenLifespan": 220,
 }
 
-func c07Lifespans() *fosite.ClientLifespanConfig {
+func c07Lifespans() *fosite.ClientLifespanConfig { return c07LifespansOf(c07Override) }
+
+func c07LifespansOf(override map[string]int) *fosite.ClientLifespanConfig {
 	l := &fosite.ClientLifespanConfig{}
 	v := reflect.ValueOf(l).Elem()
-	for name, secs := range c07Override {
+	for name, secs := range override {
 		d := time.Duration(secs) * time.Second
 		f := v.FieldByName(name)
 		if !f.IsValid() {
@@ -68,6 +70,18 @@ func c07Leff(kind, source string) int {
 		}
 	case "rt-unlimited":
 		def["rt"] = -1
+	case "refresh-override-unlimited":
+		// server: refresh tokens live 1000 s; this client's refresh-grant refresh tokens are unlimited (-1)
+		def = map[string]int{"code": 90, "at": 500, "rt": 1000, "dev": 600, "par": 300}
+		if kind == "rt-refresh" {
+			return -1
+		}
+	case "rt-unlimited+code-override-only":
+		// server: unlimited; this client's code-grant refresh tokens live 130 s, its refresh-grant ones fall back to unlimited
+		def["rt"] = -1
+		if kind == "rt-code" {
+			return c07Override["AuthorizationCodeGrantRefreshTokenLifespan"]
+		}
 	}
 	if kind == "rt-unlimited" && source == "client-override" {
 		return c07Override["AuthorizationCodeGrantRefreshTokenLifespan"]
@@ -120,8 +134,10 @@ func c07Run(c c07Case, res *WRes) {
 		p.CodeLifespan, p.ATLifespan, p.RTLifespan = 4, 6, 8
 	case "configured-long":
 		p.CodeLifespan, p.ATLifespan, p.RTLifespan = 86400, 200000, 7776000
-	case "rt-unlimited", "rt-unlimited+override":
+	case "rt-unlimited", "rt-unlimited+override", "rt-unlimited+code-override-only":
 		p.RTLifespan = -1
+	case "refresh-override-unlimited":
+		p.CodeLifespan, p.ATLifespan, p.RTLifespan = 90, 500, 1000
 	}
 	if c.Kind == "rt-unlimited" {
 		p.RTLifespan = -1
@@ -135,6 +151,12 @@ func c07Run(c c07Case, res *WRes) {
 	}
 	// the client: plain, or with per-client lifetimes
 	base := w.AddClient("L", "secret-L", false)
+	switch c.Source {
+	case "refresh-override-unlimited":
+		w.Mem.Clients["L"] = &fosite.DefaultClientWithCustomTokenLifespans{DefaultClient: base, TokenLifespans: c07LifespansOf(map[string]int{"RefreshTokenGrantRefreshTokenLifespan": -1})}
+	case "rt-unlimited+code-override-only":
+		w.Mem.Clients["L"] = &fosite.DefaultClientWithCustomTokenLifespans{DefaultClient: base, TokenLifespans: c07LifespansOf(map[string]int{"AuthorizationCodeGrantRefreshTokenLifespan": c07Override["AuthorizationCodeGrantRefreshTokenLifespan"]})}
+	}
 	if c.Source == "client-override" || c.Source == "rt-unlimited+override" {
 		w.Mem.Clients["L"] = &fosite.DefaultClientWithCustomTokenLifespans{DefaultClient: base, TokenLifespans: c07Lifespans()}
 	}
@@ -337,11 +359,14 @@ func c07Run(c c07Case, res *WRes) {
 		}
 	}
 	// age
-	if (c.Kind == "rt-unlimited" && c.Source != "client-override") || (c.Source == "rt-unlimited" && strings.HasPrefix(c.Kind, "rt-")) {
+	unlimitedByOverride := (c.Source == "refresh-override-unlimited" || c.Source == "rt-unlimited+code-override-only") && c.Kind == "rt-refresh"
+	if (c.Kind == "rt-unlimited" && c.Source != "client-override") || (c.Source == "rt-unlimited" && strings.HasPrefix(c.Kind, "rt-")) || unlimitedByOverride {
 		w.Advance(10 * 365 * 24 * time.Hour)
 		ok, o := present()
 		res.Trans++
-		if !ok {
+		if !ok && unlimitedByOverride {
+			viol(fmt.Sprintf("C07/unlimited-lifetime-not-applied/%s/source=%s", c.Kind, c.Source), fmt.Sprintf("the refresh token obtained by refreshing is configured to be unlimited for this client and grant (source %s), yet it is refused later on: the lifetime of another grant/token pair was applied", c.Source), "honoured", o.JSON)
+		} else if !ok {
 			res.note("sanity:unlimited-refresh-token-refused:" + o.Class())
 		} else {
 			res.note("unlimited-refresh-honoured-at-10y")
@@ -514,13 +539,16 @@ func init() {
 		if !r.Quick() {
 			offsets, ages = []int{0, 100, 200, 300, 400, 500, 600, 700, 800, 900, 999}, c07AgesDeep
 		}
-		sources := []string{"default", "configured", "configured-short", "configured-long", "client-override", "session-provided", "rt-unlimited", "rt-unlimited+override"}
+		sources := []string{"default", "configured", "configured-short", "configured-long", "client-override", "session-provided", "rt-unlimited", "rt-unlimited+override", "refresh-override-unlimited", "rt-unlimited+code-override-only"}
 		for _, k := range c07Kinds {
 			for _, s := range sources {
 				if s == "session-provided" && k != "at-implicit" && k != "at-code/abandoned-redeem" {
 					continue
 				}
 				if strings.HasPrefix(s, "rt-unlimited") && k != "rt-code" && k != "rt-password" && k != "rt-refresh" {
+					continue
+				}
+				if (s == "refresh-override-unlimited" || s == "rt-unlimited+code-override-only") && k != "rt-code" && k != "rt-refresh" {
 					continue
 				}
 				sessions := []string{"", "openid"}
@@ -530,7 +558,7 @@ func init() {
 				jobs = append(jobs, c07Job{Kind: k, Source: s, Sessions: sessions, Offsets: offsets, Ages: ages})
 			}
 		}
-		r.Bounds = map[string]any{"kinds": c07Kinds, "sources": []string{"server default", "configured value (90/500/1000 s)", "configured short (4/6/8 s)", "configured long (1 d/200000 s/90 d)", "per-client override (all 12 fields set to distinct values)", "session-provided access-token expiry at the authorization endpoint (implicit, hybrid)", "unlimited refresh tokens (-1) as server default, alone and under a finite per-client override"}, "ages_relative_to_expiry_s": ages,
+		r.Bounds = map[string]any{"kinds": c07Kinds, "sources": []string{"server default", "configured value (90/500/1000 s)", "configured short (4/6/8 s)", "configured long (1 d/200000 s/90 d)", "per-client override (all 12 fields set to distinct values)", "session-provided access-token expiry at the authorization endpoint (implicit, hybrid)", "unlimited refresh tokens (-1) as server default, alone and under a finite per-client override", "finite server default with a per-client unlimited (-1) refresh-grant override", "unlimited server default with a finite override for the code grant only"}, "ages_relative_to_expiry_s": ages,
 			"issue_offsets_ms": offsets, "positions": []string{"fresh", "after an unrelated grant + refresh", "aged in two steps around an unrelated grant + refresh"}, "assertion_exp_encodings": []string{"int", "float", "float with fraction"},
 			"session_types": []string{"harness session (OpenID + JWT container)", "openid.DefaultSession", "oauth2.JWTSession"}, "override_table": "12 fields x 7 grant types x 4 token types"}
 		r.Rule = "every (kind, lifetime source, issue offset, history position, age, exp encoding, session type) is minted and presented on a fresh provider under a virtual clock; ages 2 s or more past the expiry instant must be refused, ages 2 s or more before an advertised expiry must be honoured; advertised lifetime within 1 s of the effective one; override table exhaustively"
